@@ -1,5 +1,8 @@
 #!/bin/sh
-# Development tool: runs the thorough tier of the given properties one after the other (for `vp run`).
+# Development tool: runs the thorough tier of the given properties one after the other (for `vp run --with-repo`:
+# the checks then read the snapshot of /repo's HEAD, so that /repo itself can be used for seeded changes meanwhile).
+[ -n "$VP_RUN_REPO" ] && export VERIF_REPO="$VP_RUN_REPO"
+echo "repo: ${VERIF_REPO:-/repo}"
 for p in "$@"; do
   echo "=== $p"; date
   bin/check "$p" --tier thorough 2>&1 | tail -12
